@@ -91,6 +91,8 @@ impl Exp<'_> {
                 nows(if *msb { MSB0_TARGET } else { LSB0_TARGET })
             ),
             Alias(_, x) => self.ty(x, top),
+            Slice(x) => format!("{alloc}::vec::Vec<{}>", self.ty(x, false)),
+            StrSlice => format!("{alloc}::string::String"),
         }
     }
 
@@ -149,7 +151,7 @@ struct ExpItem {
 }
 
 fn is_phantom_field(f: &FieldDecl) -> bool {
-    matches!(sim::identity_key(&f.ty), Ty::Phantom(_))
+    sim::is_phantom(&f.ty)
 }
 
 fn expected_item(prog: &Program, d: &SDesc, dix: usize, e: &mut Exp) -> ExpItem {
